@@ -35,8 +35,10 @@ pub fn mask_for(prop: &str) -> Mask {
         "C03" | "C20" => Mask { out: false, errs: "none", obs: "none", insp: false, leak: false },
         // acceptance, outputs and how many tracked values were lost (the model says: none, except at listed defect sites)
         "C19" => Mask { out: true, errs: "none", obs: "none", insp: false, leak: true },
-        // check vs parse is decided on the real crate (real_asserts); the model contributes acceptance
-        "C04" => Mask { out: false, errs: "none", obs: "none", insp: false, leak: false },
+        // check vs parse is decided on the real crate (real_asserts); against the mode-free reference the model
+        // pins acceptance, the output and the complete error list in BOTH modes, so that a combinator whose
+        // value-eliding path differs from its value-building one is seen even when parse and check agree
+        "C04" => Mask { out: true, errs: "all", obs: "none", insp: false, leak: false },
         "C05" => Mask { out: false, errs: "ifok", obs: "none", insp: false, leak: false },
         "C06" => Mask { out: false, errs: "last", obs: "none", insp: false, leak: false },
         "C07" => Mask { out: true, errs: "none", obs: "none", insp: false, leak: false },
